@@ -1,7 +1,8 @@
 """C12 — cmdline/environ/exe/cwd and extended name() decode what the kernel exposes.
 
 Model: lean/PsutilModel/Model/C12.lean (+C12Gen), Spec: Spec/C12.lean, theorems: Props/C12.lean.
-Correspondence: the real `psutil.Process(pid).cmdline()/environ()/exe()/cwd()/name()` over a fake
+Correspondence: the real `psutil.Process(pid).cmdline()/environ()/exe()/cwd()/name()/username()/terminal()`, each
+in one of ten call modes and on objects from the constructor or from process_iter(), over a fake
 procfs (files with arbitrary bytes, exe/cwd as real symlinks where the target can be stored in one,
 `os.readlink` answered from a table otherwise; OS errors on single files/links injected at
 `psutil._common.open` / `os.readlink`; `os.stat`/`os.access` of paths *outside* procfs answered from the
@@ -28,11 +29,13 @@ NEEDS_EXT = True
 TRUSTED = [
     "C12 strings: psutil's str values are UTF-8+surrogateescape decodings (PYTHONUTF8=1 pinned by ./check), a bijection with byte strings; the ASCII-literal operations (split/endswith/find/in/rfind('/')) are modelled on bytes; the two places where the code as found is not byte-transparent (universal-newline translation in open_text; len()/startswith() of name() on code points) are modelled explicitly (nlTranslate, chars) and switched by translator facts",
     "C12 world: one PID; /proc/<pid>/stat parsing itself (comm between the first '(' and the last ')', state letter) is C06's subject and enters here as `comm`/`zombie`; os.stat/os.access/os.path.isfile of paths outside procfs are a parameter (`fs`) of model and theorems",
+    "C12 identity: the real uid of /proc/<pid>/status and tty_nr of /proc/<pid>/stat enter as `uid`/`tty`; pwd.getpwuid and glob('/dev/tty*')+os.stat().st_rdev are answered from the case's tables (`users`, `ttys`)",
+    "C12 modes: the harness predicts what a oneshot() block has cached from the warm-up calls it made itself (which front-end methods read stat / status is listed in STAT_READERS / STATUS_READERS); ppid()/is_running() are only run while /proc/<pid> exists (their `_gone` memory is C01/C02's subject); as_dict(attrs=[call, extras]) uses extras that cannot raise NoSuchProcess while /proc/<pid> exists",
 ]
 MANIFEST = {
-    "level_text": "Machine-checked Lean 4 proofs over a model of _pslinux.Process.cmdline/environ/exe/cwd (+ readlink, _readlink, wrap_exceptions), _common.parse_environ_block and the front ends psutil.Process.exe()/name(): for EVERY byte string / world, the model equals a byte-level specification written from the property statement (C12_cmdline_spec, C12_environ_spec, C12_link_cleanup, C12_link_withheld, C12_exe_fallback, C12_exe_refines over all call histories incl. memoisation, C12_name_rule, C12_call_refines), plus kernel-layout round-trips for every argv without NUL (C12_cmdline_roundtrip, under the stated hypothesis about a single space-containing argument, with the counterexample showing the hypothesis is needed) and every environment (C12_environ_roundtrip), and proved counterexamples for the two defects re-found (name() testing code points instead of bytes; open_text translating CR). Tied to the code by translator facts (all separator literals, ' (deleted)', 10, 15, bytes-vs-str test in name(), newline mode of open_text) feeding the proof obligation cfg_good, and by a differential run of the real methods over a fake procfs.",
-    "level_note": "Trusted: Lean kernel + {propext, Classical.choice, Quot.sound}; the translator; the correspondence harness; str<->bytes bijection under PYTHONUTF8=1; stat parsing (C06) and the exception contract of other error combinations (C03) are outside; a single argument containing a space is indistinguishable from a rewritten title in the bytes the kernel exposes (hypothesis of the round-trip).",
-    "technique": "Lean 4 case analysis and list induction (model = byte-level spec for all inputs; renderer round-trips; history refinement for the exe() memo) + translator-fed proof obligation + differential correspondence on a fake procfs with an exhaustive sweep around the 15-byte name boundary",
+    "level_text": "Machine-checked Lean 4 proofs over a model of _pslinux.Process.cmdline/environ/exe/cwd (+ readlink, _readlink, wrap_exceptions), _common.parse_environ_block and the front ends psutil.Process.exe()/name()/username()/terminal(): for EVERY byte string / world, the model equals a byte-level specification written from the property statement (C12_cmdline_spec, C12_environ_spec, C12_file_errors for OS errors on the files themselves, C12_link_cleanup, C12_link_withheld, C12_exe_fallback, C12_exe_refines over all call histories incl. memoisation, one closed-form theorem per documented branch of exe(): C12_exe_native / _native_error / _denied / _withheld / _eacces_link, C12_name_rule, C12_name_when_cmdline_raises and C12_name_zombie_or_denied (a zombie or a process with an unreadable cmdline keeps the kernel's name; NoSuchProcess propagates), C12_cwd_exe_zombie, C12_zombie_identity (a zombie still has an owner and a terminal), C12_call_refines), plus kernel-layout round-trips for every argv without NUL (C12_cmdline_roundtrip, under the stated hypothesis about a single space-containing argument, with the counterexample showing the hypothesis is needed) and every environment (C12_environ_roundtrip), C12_oneshot_same_answers (inside oneshot() every call answers as outside for the world 'block-cached stat/status as first read, everything else as now'), and proved counterexamples for the two defects re-found (name() testing code points instead of bytes; open_text translating CR). Tied to the code by translator facts (all separator literals, ' (deleted)', 10, 15, bytes-vs-str test in name(), newline mode of open_text) feeding the proof obligation cfg_good, and by a differential run of the real methods over a fake procfs in which every call is made in one of ten call modes (plain, oneshot, nested, warm block cache filled in an earlier world, after a block, as_dict with one/many attrs, as_dict inside oneshot, twice, re-fetched from process_iter) on objects from the constructor, process_iter() and process_iter(attrs=...).",
+    "level_note": "Trusted: Lean kernel + {propext, Classical.choice, Quot.sound}; the translator; the correspondence harness; str<->bytes bijection under PYTHONUTF8=1; stat/status parsing (C06) enters as comm/zombie/tty_nr/real uid; the user database and the terminal map are parameters; ENOENT on the cmdline/environ file of a live process whose /proc/<pid> exists and a denied existence test are outside the statement (model-vs-code only); a cached source outliving /proc/<pid> inside a block is C16's; a single argument containing a space is indistinguishable from a rewritten title in the bytes the kernel exposes (hypothesis of the round-trip).",
+    "technique": "Lean 4 case analysis and list induction (model = byte-level spec for all inputs; renderer round-trips; history refinement for the exe() memo; block-view lemma for oneshot) + translator-fed proof obligation + differential correspondence on a fake procfs across call modes and object sources, with exhaustive sweeps around the 15-byte name boundary, over the branches of exe() and over modes x calls x objects",
     "design_ref": "DESIGN.md §5 C12",
 }
 ASSUMPTIONS = [
